@@ -159,6 +159,14 @@ def gen_case(ctx, case, rng, lowfilling=False):
     else:
         op = random_fermionop(rng, norb, FermionOperator, conserve_spin=(wk != "spinbroken"),
                               cplx=cplx, nterms=rng.choice([1, 1, 2, 3, 5]))
+        # an explicit identity term in the expression, on top of the e_0 keyword of the constructor (both are
+        # scalar parts of the same operator and each must be counted once)
+        if len(op.terms) and rng.random() < 0.4:
+            ident = complex(U.gint(rng, zero_p=0) or 1) / 2
+            if hk == "fermionop":
+                ident = float(ident.real) or 0.5          # this entry point accepts Hermitian operators only
+            op += FermionOperator((), ident)
+            spec["identity_term"] = True
         spec["op"] = [[[list(f) for f in t], enc_c(c)] for t, c in op.terms.items()]
         from openfermion import normal_ordered as _no
         # what counts for the route and for the findings is the operator, not its spelling: terms that cancel
